@@ -207,6 +207,7 @@ func main() {
 		results = append(results, res)
 	}
 	space.Summarize(r, results)
+	virtualContainers(r)
 	var cs []string
 	for _, k := range comparators(r) {
 		cs = append(cs, k.String())
